@@ -1,6 +1,7 @@
 package world
 
 import (
+	"math"
 	"fmt"
 	"os"
 	"regexp"
@@ -1044,7 +1045,12 @@ func (w *vWorld) readingOp() {
 		}},
 		{"IsSymmetric", true, func(m ad.Matrix) obs { return obs{kind: "IsSymmetric", err: m.IsSymmetric(1e-12)} }},
 		{"Reduce", true, func(m ad.Matrix) obs {
-			s := m.Reduce(func(r ad.Scalar, x ad.ConstScalar) ad.Scalar { r.SetFloat64(r.GetFloat64() + x.GetFloat64()); return r }, ad.NewScalar(ad.Float64Type, 0))
+			// a maximum, not a sum: exact whatever the order of the traversal
+			// (sparse storage visits its entries in an order no seed controls)
+			s := m.Reduce(func(r ad.Scalar, x ad.ConstScalar) ad.Scalar {
+				r.SetFloat64(math.Max(r.GetFloat64(), x.GetFloat64()))
+				return r
+			}, ad.NewScalar(ad.Float64Type, math.Inf(-1)))
 			return obs{kind: "Reduce", cells: []cellObs{{v: s.GetFloat64()}}}
 		}},
 		{"operand-of-MdotM", nonempty, func(m ad.Matrix) obs {
